@@ -3,10 +3,12 @@
   Property theorems only; models in XMT/{Wrap,Cbk,Dns}.lean, lemmas in XMT/{Wrap,Cbk}Lemmas.lean.
 
   Scope notes (from an adversarial review of these statements, see DESIGN.md Appendix B.5):
-  * hex, base64, zlib, gzip and the AES block function are PARAMETERS: `stack_roundtrip` and
-    `sendrecv` take their round-trip laws (`LGood`) as hypotheses; only the XOR/CFB layer, the CBK
-    layer, the Base64-shift arithmetic and the DNS framing are proved here. The real codecs are
-    exercised by the direct oracles on every run.
+  * zlib, gzip and the AES block function are PARAMETERS: `stack_roundtrip` and `sendrecv` take
+    their round-trip laws (`LGood`) as hypotheses. Since session 3 encoding/hex and encoding/base64
+    are Lean models (XMT/HexCodec.lean, XMT/B64Codec.lean) with proved round trips
+    (`hex_roundtrip`, `base64_roundtrip`), so that `stack_roundtrip_concrete` / `sendrecv_concrete`
+    (end of this file) have no assumed layer for stacks of XOR / CBK / Hex / Base64. The real codecs
+    are exercised by the direct oracles on every run.
   * `Layer.dec` is whole-stream: "however the reads are chunked" is proved for CBK
     (`cbk_stream_chunked`) and holds for CFB byte by byte; for the parameter layers it is part of the
     assumed law.
@@ -16,6 +18,8 @@
   * `Dns.read` (XMT/Dns.lean) is only ever applied to what `Dns.write` produced; on malformed
     messages it still shows the outcomes of the reader before its repair (index panics). The reader
     on hostile bytes is the separate model XMT/DecodeDns.lean (C04), tied to the repaired code.
+    Since session 3 the two reader models are proved to succeed on the same inputs with the same
+    payload (`dns_reader_models_agree`, `dns_reader_models_fail_together`).
   * `cbk_block` / `cbk_shuffle_inverse` also cover `A = 0`, where Go's `i % e.A` would divide by zero:
     unreachable through `newSource` (forces `A` non-zero), see DESIGN B.4.
 -/
